@@ -94,29 +94,18 @@ let contains s sub =
   let n = String.length s and m = String.length sub in
   let rec go i = i + m <= n && (String.sub s i m = sub || go (i + 1)) in go 0
 
-(* ---- attribution of a round-trip failure to a known defect of the printer / lexer: a syntactic
-        trigger evaluated on the implementation's own tree (raw dump).  First match wins. ---- *)
+(* ---- a round-trip failure of the implementation is never attributed to a known defect any more: the four
+        causes this check used to recognise (rt-nul-in-string, rt-block-string-edge, rt-sdl-empty-body-dropped,
+        rt-string-line-continuation) are repaired, so whatever fails to round-trip is a VIOLATION.  What is
+        left is a diagnostic: does the implementation's tree hold a string that does not survive re-quoting
+        (extracted string_stable_b / description_stable_b)? ---- *)
 let rec exists_node (p : sexp -> bool) (x : sexp) : bool =
   p x || (match x with L l -> List.exists (exists_node p) l | _ -> false)
-let rt_cause (dump : sexp) : string option =
-  let has p = exists_node p dump in
-  let is_strnode = function L [A ("str" | "desc"); S _; A _] -> true | _ -> false in
-  if has (function L [A ("str" | "desc"); S r; A _] -> String.contains r '\000' | _ -> false) then Some "rt-nul-in-string"
-  else if has (function
+let rt_diag (dump : sexp) : string =
+  if exists_node (function
       | L [A "str"; S r; A b] -> not (string_stable_b (bytes_of_string r) (b = "t"))
       | L [A "desc"; S r; A b] -> not (description_stable_b (bytes_of_string r) (b = "t"))
-      | _ -> false) then Some "rt-block-string-edge"
-  else if (match dump with
-           | L (A "doc" :: defs) ->
-             let rec go = function
-               | [] | [_] -> false
-               | L [A "typedef"; A ("object" | "interface" | "input" | "enum"); _; _; _; _; _; L []; _; L []; L []] :: _ :: _ -> true
-               | L [A "schemadef"; A "t"; _; L (_ :: _); L []] :: _ :: _ -> true     (* extend schema @d, no list, then "{" *)
-               | _ :: r -> go r in
-             go defs
-           | _ -> false) then Some "rt-sdl-empty-body-dropped"
-  else if has (function L [A "desc"; S r; A "f"] -> String.contains r '\n' || String.contains r '\r' | _ -> false) then Some "rt-string-line-continuation"
-  else (ignore is_strnode; None)
+      | _ -> false) dump then " [diag: a stored string is not re-quotable]" else ""
 
 let show_tok (t : token) =
   Printf.sprintf "(%s %s %s %s %s %s %s)" (decimal_of_n (kind_code t.t_kind)) (decimal_of_n t.t_start) (decimal_of_n t.t_end)
@@ -194,7 +183,7 @@ let handle (x : sexp) : (string * string) list =
           if acc = "panic" || acc = "printpanic" then add "specfail" ("total: print/re-parse panicked (" ^ tag ^ ")")
           else if not (roundtrip_ok_b (acc = "ok") (bytes_of_string cdump1) (bytes_of_string dump2) (bytes_of_string p1) (bytes_of_string p2)) then
             add "specfail" (Printf.sprintf "roundtrip/%s acc=%s dump_equal=%b print_equal=%b%s p1=%s p2=%s" tag acc (cdump1 = dump2) (p1 = p2)
-                              (match rt_cause (parse_sexp dump1) with Some c -> " [cause: " ^ c ^ "]" | None -> "")
+                              (rt_diag (parse_sexp dump1))
                               (quote_string p1) (quote_string p2))
         | _ -> raise (Sexp_error "rt")) [rtc; rti]
     end;
